@@ -8,6 +8,7 @@ import (
 	"bytes"
 	"encoding/json"
 	"fmt"
+	"github.com/cloudwego/hertz/pkg/protocol"
 	"strings"
 	"sync/atomic"
 
@@ -79,6 +80,12 @@ func Judge(res *srvh.Result, exps []wire.Expect) (kind, msg string) {
 	// An invalid field name (bare CR in the name) may be rejected instead: then the prefix is served and a 4xx closes.
 	rejectAt := -1
 	for i, e := range served {
+		if e.Declined {
+			// the engine declines to read this body (hertz still runs the handler, with the status preset to 417): the body the
+			// client sent anyway is indistinguishable from further requests, so nothing after this request may be served
+			served = served[:i+1]
+			break
+		}
 		if e.InvalidName {
 			if len(res.Seen) == i {
 				rejectAt = i
@@ -98,7 +105,7 @@ func Judge(res *srvh.Result, exps []wire.Expect) (kind, msg string) {
 		if s.Method != e.Method || s.URI != e.Target {
 			return "request-line", fmt.Sprintf("request %d: handler saw %s %s, wire says %s %s", i, s.Method, s.URI, e.Method, e.Target)
 		}
-		if e.BodyOpaque {
+		if e.BodyOpaque || e.Declined {
 			s.BodyErr, s.Body = "", e.Body
 		}
 		if s.BodyErr != "" {
@@ -152,7 +159,7 @@ func Judge(res *srvh.Result, exps []wire.Expect) (kind, msg string) {
 		}
 		if rejectAt >= 0 && k == rejectAt {
 			if m.Status/100 != 4 || !m.ToClose {
-				return "reject-discipline", fmt.Sprintf("request %d has an invalid field name and was not handled, but the answer is %d close=%v", k, m.Status, m.ToClose)
+				return "reject-discipline", fmt.Sprintf("request %d (invalid field name, or declined Expect) was not handled, but the answer is %d close=%v", k, m.Status, m.ToClose)
 			}
 			k++
 			continue
@@ -161,6 +168,13 @@ func Judge(res *srvh.Result, exps []wire.Expect) (kind, msg string) {
 			return "extra-response", fmt.Sprintf("more final responses than requests: extra %d %q", m.Status, clip(m.Body))
 		}
 		e := want[k]
+		if e.Declined {
+			if pendingInterim != 0 {
+				return "interim", fmt.Sprintf("request %d was declined but got an interim 100 response", k)
+			}
+			k++
+			continue
+		}
 		if m.Status != 200 {
 			return "status", fmt.Sprintf("request %d answered %d instead of 200", k, m.Status)
 		}
@@ -224,6 +238,7 @@ type worker struct {
 func newWorker() *worker {
 	w := &worker{buf: srvh.New(srvh.Opts{}), str: srvh.New(srvh.Opts{Streaming: true})}
 	for _, s := range []*srvh.Server{w.buf, w.str} {
+		s.E.ContinueHandler = func(h *protocol.RequestHeader) bool { return len(h.Peek("X-Decline")) == 0 }
 		s.EchoAll()
 		s.Start()
 	}
@@ -384,6 +399,8 @@ func reduced() []wire.Spec {
 		with(S("POST", wire.FChunkedTrailer, 1), func(s *wire.Spec) { s.Close = true }),
 		with(S("POST", wire.FCLExpect, 8193), func(s *wire.Spec) { s.Extra = wire.XFoldSP }),
 		with(S("POST", wire.FChunkedTrailer, 2), func(s *wire.Spec) { s.TrUnannounced = true }),
+		with(S("POST", wire.FCLExpect, 5), func(s *wire.Spec) { s.Decline = true }),
+		with(S("POST", wire.FChunkedExpect, 3), func(s *wire.Spec) { s.Decline = true }),
 		with(S("POST", wire.FCL, 120), func(s *wire.Spec) { s.Multipart = true }),
 		with(S("POST", wire.FCL, 5000), func(s *wire.Spec) { s.Multipart = true }),
 		with(S("POST", wire.FCL, 8300), func(s *wire.Spec) { s.Multipart = true }),
